@@ -86,7 +86,17 @@ BufOK(ln, B) == /\ Len(ln.bafter) = ln.n
                 /\ ln.bn = Len(B)
                 /\ \A j \in 1..Len(ln.bafter) : IF j <= Len(B) THEN ln.bafter[j] = B[j] ELSE ln.bafter[j] = FILL
 
-LeastSlice(c, st, B, u1) == CHOOSE y \in st.ylo..u1 : SliceAt(c, y, B) /\ \A z \in st.ylo..(y - 1) : ~SliceAt(c, z, B)
+\* After an exception under io.BufferedReader / io.TextIOWrapper (CPython) bytes of the failed call
+\* may be dropped, also from the middle of what is delivered later.  What is still required: the
+\* bytes delivered are, in order, bytes of the data between the last known position and what was
+\* consumed (nothing fabricated, nothing from beyond the limit).  Greedy match; 0 - 1 = no match,
+\* else the index after the last matched byte (a sound lower bound for what follows).
+RECURSIVE MatchEnd(_, _, _, _, _)
+MatchEnd(data, y, B, j, hi) ==
+  IF j > Len(B) THEN y
+  ELSE IF y >= hi \/ y >= Len(data) THEN 0 - 1
+  ELSE IF data[y + 1] = B[j] THEN MatchEnd(data, y + 1, B, j + 1, hi)
+  ELSE MatchEnd(data, y + 1, B, j, hi)
 
 OpVerdict(c, st, ln) ==
   LET evs == ln.ev
@@ -112,7 +122,7 @@ OpVerdict(c, st, ln) ==
   ELSE IF SawShortEOF(c, evs, u0) /\ ~c.is_max THEN "DisconnectOnShort"
   ELSE IF c.is_max /\ u0 >= c.limit /\ st.synced /\ st.ylo = u0 /\ ln.op # "exhaust" THEN "TooLargeOnMax"
   ELSE IF st.synced /\ ~SliceAt(c, st.ylo, B) THEN "PrefixOfData"
-  ELSE IF ~st.synced /\ ~(\E y \in st.ylo..u1 : SliceAt(c, y, B) /\ y + nB <= u1) THEN "PrefixOfData"
+  ELSE IF ~st.synced /\ MatchEnd(c.data, st.ylo, B, 1, u1) < 0 THEN "PrefixOfData"
   ELSE IF st.synced /\ st.ylo + nB > u1 THEN "PrefixOfData"
   ELSE IF st.synced /\ IsRaw(c) /\ st.ylo + nB # u1 THEN "NoLoss"
   ELSE IF Sized(ln.op) /\ ln.n > 0 /\ nB > ln.n THEN "SizeBound"
@@ -128,8 +138,8 @@ OpNext(c, st, ln) ==
       B   == IF ln.rk = "bytes" THEN ln.rb ELSE <<>>
   IN IF isB THEN
           IF st.synced THEN [ylo |-> st.ylo + Len(B), upos |-> u1, synced |-> TRUE]
-          ELSE IF B # <<>> /\ \E y \in st.ylo..u1 : SliceAt(c, y, B)
-               THEN [ylo |-> LeastSlice(c, st, B, u1) + Len(B), upos |-> u1, synced |-> FALSE]
+          ELSE IF MatchEnd(c.data, st.ylo, B, 1, u1) >= 0
+               THEN [ylo |-> MatchEnd(c.data, st.ylo, B, 1, u1), upos |-> u1, synced |-> FALSE]
                ELSE [ylo |-> st.ylo, upos |-> u1, synced |-> FALSE]
      ELSE \* an exception surfaced: bytes consumed by the failed call may be gone; a raw stream
           \* has no buffer, so the next byte is the next one the server hands out
